@@ -637,8 +637,11 @@ func ptDiff(spec map[string]any, pt *input.Point) string {
 		if !ok {
 			return fmt.Sprintf("field %s missing (fields=%v)", key, pt.Fields)
 		}
-		if v["t"] == "json" && strings.Contains(compactJSON2(v["d"]), `"cycle"`) {
-			continue // cyclic structure: what gets stored is not specified
+		if v["t"] == "json" {
+			d := compactJSON2(v["d"])
+			if strings.Contains(d, `"cycle"`) || strings.Contains(d, `"c":"inf"`) || strings.Contains(d, `"c":"nan"`) {
+				continue // no JSON text exists for cyclic structures and non-finite floats: what gets stored is not specified
+			}
 		}
 		if v["t"] == "json" { // a list/map snapshot stored as JSON text: content must be the snapshot
 			txt, ok := got.(string)
